@@ -4,13 +4,20 @@ PROPS["C15"] = dict(
               "concatenations, native go fuzz over a (kind, value, length) data-provider layer in the thorough tier",
     rule="case = list of 1..20 items (byte, uint16, uint32, uint64, variable-length uint, byte string, string; newBuf flag per "
          "byte string). Every item: Marshal == Writable*Size (1/2/4/8 for the fixed kinds), Marshal into EVERY destination "
-         "length 0..size+1 (shorter -> (0, error), otherwise n == size and the same bytes), ObjectsWriter into a bytes.Buffer "
-         "gives the same bytes and count, Unmarshal returns (size, value, nil), newBuf=true result lies outside the source and "
-         "survives flipping the source, newBuf=false result starts at source[prefix]; the whole list written back to back "
-         "(Marshal and one ObjectsWriter agree) is decoded item by item and consumes everything. Enumerated: all 256 bytes, all "
+         "length 0..size+1 (shorter -> (0, error) and no panic, otherwise n == size and the same bytes) - both with "
+         "destinations whose len == cap and with windows big[8:8+d] of a larger array (len < cap: canary data in front, "
+         "spare capacity behind), where additionally no byte outside dst[:n] (outside dst[:len(dst)] when the call fails) may "
+         "change (sizes > 2048: windows of the lengths 0..64, size-64..size+1 and every (size/64)-th in between); "
+         "ObjectsWriter into a bytes.Buffer gives the same bytes and count; Unmarshal returns (size, value, nil) from a source "
+         "with cap == len and from one with spare capacity; newBuf=true: the result's backing array res[:cap(res)] (any "
+         "length, 0 included; strings: the non-empty data) does not overlap the source's memory, appending to the decoded "
+         "byte string leaves the source unchanged, and the value survives flipping the source; newBuf=false: a non-empty "
+         "result starts at source[prefix]; the whole list written back to back (Marshal - alternately into the rest of the "
+         "buffer and into a window of exactly the needed length - and one ObjectsWriter agree) is decoded item by item, "
+         "consumes everything, and decodes again after every newBuf=true value was appended to. Enumerated: all 256 bytes, all "
          "65536 uint16, for uint32/uint64/varint every bit length 0..64 (min, max, one mixed value) and every 2^(7k), 2^(8k) "
          "-2..+2, all byte strings/strings of length 0..3 over {00,'a',ff}, every length 0..260, 2^14-4..2^14+4, 2^21-1, 2^21 "
-         "(thorough 2^21-3..2^21+2), all lists of length 2 (thorough 3) over 25 representative items; rapid: the same value "
+         "(thorough 2^21-3..2^21+2), all lists of length 2 (thorough 3) over 26 representative items; rapid: the same value "
          "classes drawn at random plus random 64-bit values and random content (text, arbitrary and hostile bytes, i.e. "
          "invalid UTF-8). Not generated: byte strings >= 2^28 bytes (5-byte prefix; 256 MB per value). "
          "non-trivial = some varint value or byte-string length is within 2 of 2^(7k) (or the varint is >= 2^64-3), or a "
@@ -18,10 +25,12 @@ PROPS["C15"] = dict(
          "every case and counted in short_destination_rejections_checked; distinct = FNV hash of the case's JSON form",
     assumptions=["uint is 64 bits wide on the platform of the run (values up to 2^64-1 are given to MarshalUint)",
                  "nothing is asserted about the byte format itself (only round trip, sizes, agreement of the two writers)",
-                 "newBuf=false 'aliases the input' is read as: a non-empty result starts at source[prefix length]; empty results carry no aliasing claim"],
+                 "newBuf=false 'aliases the input' is read as: a non-empty result starts at source[prefix length]; empty results carry no aliasing claim",
+                 "'independent of the source buffer' (newBuf=true) is read on the backing array: the decoded slice, up to its capacity, shares no memory with the source (a zero-capacity result is fine)",
+                 "Marshal 'returns number of bytes written': on success nothing outside dst[:n] is written, on failure nothing outside dst[:len(dst)]"],
     units=[
         dict(name="exhaustive", run="^TestC15Exhaustive$", shards=(2, 8), timeout=(200, 600)),
-        dict(name="rapid", run="^TestC15Rapid$", checks=(4000, 100000), shards=(8, 16), timeout=(200, 900)),
+        dict(name="rapid", run="^TestC15Rapid$", checks=(4000, 60000), shards=(8, 16), timeout=(200, 900)),
         dict(name="fuzz", run="^FuzzC15$", fuzz=(None, "^FuzzC15$"), enabled=(False, True), serial=True, shards=1, timeout=(200, 400),
              args=([], ["-test.fuzz=^FuzzC15$", "-test.fuzztime=75s", "-test.fuzzcachedir={rundir}/fuzzcache", "-test.parallel=16"]),
              env={"VERIF_STATS_PERPID": "1"}),
